@@ -145,7 +145,7 @@ theorem annot_sound (sp : Spec) : ∀ (em : EntMap) (L : List (List Char × List
 /-- shape of a replacement `r` for a name denoting `cps` -/
 def shapeOk (r : List Char) (cps : List Nat) : Bool :=
   match r with
-  | [ch] => (match cps with | [m] => m < 128 && m != 13 && Char.ofNat m == ch | _ => false)
+  | [ch] => (match cps with | [m] => m < 128 && m != 0 && Char.ofNat m == ch | _ => false)
   | c1 :: c2 :: rest =>
     c1 == '&' &&
     (if c2 = '#' then
@@ -269,8 +269,8 @@ theorem shapeOk_sound (r : List Char) (cps : List Nat) (h : shapeOk r cps = true
     · next m =>
       simp only [Bool.and_eq_true, decide_eq_true_eq, bne_iff_ne, ne_eq, beq_iff_eq] at h
       left
-      refine ⟨ch, rfl, ?_⟩
-      simp [mkCp, h.1.1, h.1.2, h.2]
+      refine ⟨m, h.1.1, by rw [h.2], ?_⟩
+      simp [numericFix_small m h.1.1 h.1.2]
     · simp at h
   · next c1 c2 rest =>
     simp only [Bool.and_eq_true, beq_iff_eq] at h
@@ -348,40 +348,82 @@ theorem emCheck_sound (em : EntMap) (h : emCheck Verif.Gen.C03Html5Entities.enti
     have := hsubm _ ((mem_isort _ _).mpr this)
     exact lookup_of_sorted _ hsorted _ _ this
 
-/-! ## `TextRevEntitiesMap` -/
+/-! ## `TextRevEntitiesMap`, `AttrRevEntitiesMap` -/
 
+/-- every row `b ↦ q`: `b` is ASCII and `q` is a complete decimal or named reference that denotes what a numeric
+    reference to `b` denotes -/
 def revCheck (rev : RevMap) : Bool :=
   rev.all (fun e =>
+    decide (e.1.toNat < 128) &&
     match e.2 with
-    | c1 :: rest =>
-      c1 == '&' && rest == rest.takeWhile isAlnum ++ [';'] &&
-      lookupName (rest.takeWhile isAlnum ++ [';']) == some [e.1.toNat] &&
-      decide (e.1.toNat < 128) && e.1.toNat != 13
-    | [] => false)
+    | c1 :: c2 :: rest =>
+      c1 == '&' &&
+      (if c2 = '#' then
+        rest == rest.takeWhile isDigit ++ [';'] && !(rest.takeWhile isDigit).isEmpty &&
+        decide (mkCp (numericFix (numVal 10 (rest.takeWhile isDigit))) = mkCp (numericFix e.1.toNat))
+      else
+        (c2 :: rest) == (c2 :: rest).takeWhile isAlnum ++ [';'] &&
+        (match lookupName ((c2 :: rest).takeWhile isAlnum ++ [';']) with
+         | some cps => decide (cps.map mkCp = [mkCp (numericFix e.1.toNat)])
+         | none => false))
+    | _ => false)
+
+theorem toNat_ofNat_small : ∀ v, v < 128 → (Char.ofNat v).toNat = v := by decide
 
 theorem revCheck_sound (rev : RevMap) (h : revCheck rev = true) : RevOk rev := by
-  intro ch q hl
-  have hin := lookup_mem rev ch q hl
+  intro v q hv hl
+  have hin := lookup_mem rev (Char.ofNat v) q hl
   have := List.all_eq_true.mp h _ hin
-  simp only at this
+  simp only [toNat_ofNat_small v hv, Bool.and_eq_true, decide_eq_true_eq] at this
+  obtain ⟨_, this⟩ := this
   split at this
-  · next c1 rest =>
-    simp only [Bool.and_eq_true, beq_iff_eq, decide_eq_true_eq, bne_iff_ne, ne_eq] at this
-    obtain ⟨⟨⟨⟨hc1, hrest⟩, hlk⟩, hlt⟩, h13⟩ := this
+  · next c1 c2 rest =>
+    simp only [Bool.and_eq_true, beq_iff_eq] at this
+    obtain ⟨hc1, this⟩ := this
     subst hc1
     refine ⟨rfl, ?_⟩
     intro attr t
-    have hm := matchRef_named_semi attr (rest.takeWhile isAlnum) t [ch.toNat] (takeWhile_all isAlnum _) hlk
-    have e : ('&' :: rest) ++ t = '&' :: (rest.takeWhile isAlnum ++ ';' :: t) := by
-      conv => lhs; rw [hrest]
-      simp
-    rw [e, dec_ref attr _ _ _ hm]
-    have hcp : mkCp ch.toNat = .lit ch := by simp [mkCp, hlt, h13, Char.ofNat_toNat]
-    simp only [List.map_cons, List.map_nil, hcp, List.singleton_append]
-    congr 1
-    have e2 : rest.takeWhile isAlnum ++ ';' :: t = (rest.takeWhile isAlnum ++ [';']) ++ t := by simp
-    have : (rest.takeWhile isAlnum).length + 1 = (rest.takeWhile isAlnum ++ [';']).length := by simp
-    rw [e2, this, List.drop_left]
+    split at this
+    · next hc2 =>
+      subst hc2
+      simp only [Bool.and_eq_true, beq_iff_eq, Bool.not_eq_true', decide_eq_true_eq] at this
+      obtain ⟨⟨hrest, hne⟩, hval⟩ := this
+      have hne' : rest.takeWhile isDigit ≠ [] := by
+        intro e; rw [e] at hne; simp at hne
+      have hm := matchRef_dec_semi attr (rest.takeWhile isDigit) t hne' (takeWhile_all isDigit rest)
+      have e : ('&' :: '#' :: rest) ++ t = '&' :: ('#' :: (rest.takeWhile isDigit ++ ';' :: t)) := by
+        conv => lhs; rw [hrest]
+        simp
+      rw [e, dec_ref attr _ _ _ hm, hval]
+      simp only [List.singleton_append]
+      congr 1
+      have : (rest.takeWhile isDigit).length + 2 = ('#' :: rest.takeWhile isDigit ++ [';']).length := by simp
+      have e2 : '#' :: (rest.takeWhile isDigit ++ ';' :: t) = ('#' :: rest.takeWhile isDigit ++ [';']) ++ t := by simp
+      rw [this, e2, List.drop_left]
+    · next hc2 =>
+      simp only [Bool.and_eq_true, beq_iff_eq] at this
+      obtain ⟨hrest, hlk⟩ := this
+      cases hl2 : lookupName ((c2 :: rest).takeWhile isAlnum ++ [';']) with
+      | none => simp [hl2] at hlk
+      | some cps =>
+        simp only [hl2, decide_eq_true_eq] at hlk
+        have hm := matchRef_named_semi attr ((c2 :: rest).takeWhile isAlnum) t cps (takeWhile_all isAlnum _) hl2
+        have e : ('&' :: c2 :: rest) ++ t = '&' :: ((c2 :: rest).takeWhile isAlnum ++ ';' :: t) := by
+          conv => lhs; rw [hrest]
+          simp
+        rw [e, dec_ref attr _ _ _ hm, hlk]
+        simp only [List.singleton_append]
+        congr 1
+        have e2 : (c2 :: rest).takeWhile isAlnum ++ ';' :: t = ((c2 :: rest).takeWhile isAlnum ++ [';']) ++ t := by simp
+        have : ((c2 :: rest).takeWhile isAlnum).length + 1 = ((c2 :: rest).takeWhile isAlnum ++ [';']).length := by simp
+        rw [e2, this, List.drop_left]
   · simp at this
+
+/-- NUL and CR have a row -/
+def revCovers (rev : RevMap) : Bool :=
+  (rev.lookup (Char.ofNat 0)).isSome && (rev.lookup (Char.ofNat 13)).isSome
+
+theorem revCovers_sound (rev : RevMap) (h : revCovers rev = true) : RevCovers rev := by
+  simpa [revCovers, RevCovers] using h
 
 end Verif.Proofs.HtmlEntTable
